@@ -517,7 +517,9 @@ def write_replay(pid, payload):
 
 
 def write_evidence(pid, ev):
-    d = os.path.join(ROOT, 'evidence')
+    # the evaluation scripts (seeded changes, harmless rewrites) run checks against a PATCHED tree: their evidence goes
+    # to a scratch directory so that the committed evidence always describes the unchanged tree
+    d = os.environ.get('VERIF_EVIDENCE_DIR') or os.path.join(ROOT, 'evidence')
     os.makedirs(d, exist_ok=True)
     with open(os.path.join(d, pid + '.json'), 'w') as f:
         json.dump(ev, f, indent=1)
